@@ -37,8 +37,10 @@ var (
 	ErrSimReset  = fmt.Errorf("simnet: connection reset by peer (%w)", syscall.ECONNRESET)
 	ErrSimClosed = fmt.Errorf("simnet: %w", net.ErrClosed)
 	ErrSimWrite  = errors.New("simnet: injected write error")
-	ErrSimDial   = errors.New("simnet: injected dial error")
-	ErrSimBroken = fmt.Errorf("simnet: broken pipe (%w)", syscall.EPIPE)
+	// ErrSimCloseFail: Close() did close, and reports a failure of its own
+	ErrSimCloseFail = errors.New("simnet: close: could not notify the peer")
+	ErrSimDial      = errors.New("simnet: injected dial error")
+	ErrSimBroken    = fmt.Errorf("simnet: broken pipe (%w)", syscall.EPIPE)
 	// ErrSimWriteEOF wraps io.EOF: it is not io.EOF itself and must be treated as
 	// any other transport error
 	ErrSimWriteEOF = fmt.Errorf("simnet: injected write error (%w)", io.EOF)
@@ -342,7 +344,13 @@ func (c *Conn) Close() error {
 		} else {
 			c.s.after(us(c.s.sc.Cfg.LatC2BUs), "close-seen", func() { c.s.broker.connGone(c) })
 		}
+		if c.s.sc.Cfg.CloseErr {
+			return ErrSimCloseFail
+		}
 		return nil
+	}
+	if c.s.sc.Cfg.CloseErr {
+		return ErrSimCloseFail
 	}
 	return nil
 }
